@@ -46,6 +46,7 @@ Lemma epic_eqb_refl x : epic_eqb x x = true. Proof. unfold epic_eqb. rewrite raw
 Lemma path_eqb_refl x : path_eqb x x = true.
 Proof.
   destruct x; cbn; auto using raw_eqb_refl, onehop_eqb_refl, epic_eqb_refl, dec_eqb_refl.
+  now rewrite N.eqb_refl, bytes_eqb_refl.
 Qed.
 Lemma scion_eqb_refl x : scion_eqb x x = true. Proof. unfold scion_eqb. rewrite path_eqb_refl. refl_tac. Qed.
 Lemma vals_eqb_refl x : vals_eqb x x = true.
@@ -125,6 +126,7 @@ Qed.
 Lemma wf_pathb_spec p : wf_pathb p = true -> wf_path p.
 Proof.
   destruct p; cbn; auto using wf_rawb_spec, wf_onehopb_spec, wf_epicb_spec, wf_decb_spec.
+  intros H. apply andb_true_iff in H as [H1 H2]. b2p. auto.
 Qed.
 
 Lemma wf_scion_nolenb_spec h : wf_scion_nolenb h = true -> wf_scion_nolen h.
@@ -196,12 +198,25 @@ Proof.
     rewrite Esp' in Esp. injection Esp as <-.
     exists bs. split; [exact E|]. unfold lift. now rewrite D.
   - (* empty *) destruct TP as [TP | ->]; [discriminate|]. exists []. split; reflexivity.
-  - (* scion *) destruct fx.
-    + andb_split W. destruct W as [[W W1] W2]. b2p. apply wf_scion_nolenb_spec in W.
-      destruct (scion_dec_enc_fix x (aux_of payload) W W1 W2) as (e & E & _ & D).
-      exists e. split; [exact E|]. unfold lift. now rewrite D.
-    + apply wf_scionb_spec in W. destruct (scion_dec_enc x W) as (e & E & _ & D).
-      exists e. split; [exact E|]. unfold lift. now rewrite D.
+  - (* scion *) cbv zeta in W. apply andb_true_iff in W as [W WD]. apply andb_true_iff in W as [W NO].
+    apply negb_true_iff in NO.
+    destruct (s_path x) as [|r|o|e0|d|t b] eqn:P.
+    5:{ (* decoded path *) apply wf_decb_spec in WD.
+        assert (W' : if fx then wf_scion_nolen (scion_undecoded x) /\
+                                 (scn_len (scion_undecoded x) <= max_hdr_len)%nat /\
+                                 Nat.modulo (scn_len (scion_undecoded x)) line_len = 0%nat
+                     else wf_scion (scion_undecoded x)).
+        { destruct fx.
+          - andb_split W. destruct W as [[W W1] W2]. b2p. apply wf_scion_nolenb_spec in W. auto.
+          - now apply wf_scionb_spec in W. }
+        destruct (scion_dec_enc_decoded fx (aux_of payload) x d P WD W') as (e & r & E & _ & _ & D).
+        exists e. split; [exact E|]. unfold lift. now rewrite D. }
+    all: assert (U : scion_undecoded x = x) by (apply scion_undecoded_other; now rewrite P).
+    all: rewrite U in *; destruct fx;
+      [ andb_split W; destruct W as [[W W1] W2]; b2p; apply wf_scion_nolenb_spec in W;
+        destruct (scion_dec_enc_fix x (aux_of payload) W NO W1 W2) as (e & E & _ & D)
+      | apply wf_scionb_spec in W; destruct (scion_dec_enc x W NO) as (e & E & _ & D) ];
+      (exists e; split; [exact E|]; unfold lift; now rewrite D).
   - (* udp *) apply andb_true_iff in W as [W W1]. apply wf_valsb_spec in W.
     eexists. split; [reflexivity|].
     unfold aux_of in *. destruct fx.
@@ -286,7 +301,7 @@ Lemma dec_ok l bs h rest : wf_bytes bs -> decode l bs = Ok (h, rest) -> known l 
   overlong l bs = false /\
   (addr_exempt l bs h = true \/ exists e, encode false 0 h = Ok e /\ e ++ rest = mask l bs).
 Proof.
-  intros W D K. destruct l as [| | | | | | | | | | |id|k| |]; cbn [decode overlong mask addr_exempt known] in *.
+  intros W D K. destruct l as [| | | | | | | | | | |id|k| | |]; cbn [decode overlong mask addr_exempt known] in *.
   - apply lift_inv in D as (a & D & ->). destruct (hop_enc_dec _ _ _ W D) as (M & _).
     split; [reflexivity|]. right. eexists. split; [reflexivity | exact M].
   - apply lift_inv in D as (a & D & ->). destruct (info_enc_dec _ _ _ W D) as (M & _).
@@ -353,6 +368,13 @@ Proof.
       cbn [encode]. rewrite P. eexists. split; [reflexivity|]. now rewrite app_nil_r.
     + right. destruct (pack_parse _ _ _ Wr L (parse_addr_type _ _ _ E) E) as [P _]; [discriminate|].
       cbn [encode]. rewrite P. eexists. split; [reflexivity|]. now rewrite app_nil_r.
+  - (* scion, recycling layer *) apply lift_inv in D as (a & D & ->). rewrite D in K.
+    apply negb_false_iff, Nat.eqb_eq in K.
+    destruct (scion_r_enc_dec _ _ _ W D) as (_ & _ & _ & _ & _ & _ & R).
+    destruct (R K) as (e & E & M). split.
+    + destruct (scion_overlong bs) eqn:O; [|reflexivity].
+      rewrite (scion_r_reject_overlong _ W O) in D. discriminate.
+    + right. exists e. auto.
 Qed.
 
 Theorem dec_oracle_model l bs : wf_bytes bs -> known l bs = false ->
@@ -373,10 +395,10 @@ Proof. unfold lift. destruct r as [[a r']| |]; cbn [bind]; congruence. Qed.
 
 Theorem decode_no_panic l bs : l <> LAddr -> decode l bs <> Panic.
 Proof.
-  intros NA. destruct l as [| | | | | | | | | | |id|k| |]; cbn [decode];
+  intros NA. destruct l as [| | | | | | | | | | |id|k| | |]; cbn [decode];
     try (apply lift_no_panic;
          auto using hop_no_panic, info_no_panic, meta_no_panic, raw_no_panic, dec_no_panic,
-           onehop_no_panic, epic_no_panic, scion_no_panic, fmt_decode_no_panic, ext_no_panic).
+           onehop_no_panic, epic_no_panic, scion_no_panic, scion_r_no_panic, fmt_decode_no_panic, ext_no_panic).
   - unfold empty_decode. destruct (Nat.eqb _ _); cbn [bind]; discriminate.
   - pose proof (udp_no_panic bs). destruct (udp_decode bs) as [[[v p] t]| |]; cbn [bind]; congruence.
   - pose proof (scmp_no_panic bs). destruct (scmp_decode bs) as [[[b m] r]| |]; cbn [bind]; congruence.
